@@ -3,6 +3,8 @@ import rules_dispatch  # noqa: F401  (registers rules)
 import rules_serial  # noqa: F401
 import rules_effects  # noqa: F401
 import rules_conc  # noqa: F401
+import rules_guard  # noqa: F401
+import rules_iter  # noqa: F401
 
 COMMON_ASSUME = [
     "clang 14 front end parses /repo as g++ 12 compiles it (same flags, -std=gnu++17, -UNDEBUG)",
@@ -11,6 +13,53 @@ COMMON_ASSUME = [
 ]
 
 PROPS = {
+    "C02": {
+        "rules": ["R-IDGUARD", "R-ACCEPT", "R-ALPHAGUARD", "R-NOTFOUND"],
+        "explanation": "CFG edge-dominance rules: every use of the id in the 13 extract overrides is dominated by both range tests and the "
+                       "failing path stores length 0 and returns NULL; in the six hash lookups an ID is returned only under a successful full "
+                       "comparison, each probe is preceded by the occupied-cell test, the probe loop is bounded by the table size; XBW accepts only "
+                       "under the terminator-label test; pattern bytes index occ[] only after the alphabet test (reaching definitions on the CFG); "
+                       "a helper whose result callers test against NORESULT can return it.",
+        "decided": ["ID range guard dominates every memory-reaching use of id, incl. 0 and SIZE_MAX (R-IDGUARD)",
+                    "no acceptance without comparison; empty cell ends the probe; bounded probe loop; XBW terminator test (R-ACCEPT)",
+                    "alphabet test before occ[] for every pattern byte, in the function or by construction at every call site (R-ALPHAGUARD)",
+                    "not-found protocol between search helpers and their callers (R-NOTFOUND)"],
+        "not_decided": ["that the comparison routines compare correctly", "reads inside decoders for absent strings in front-coded buckets (bounded only by run-time offsets)"],
+        "assumptions": COMMON_ASSUME,
+    },
+    "C04": {
+        "rules": ["R-NOTFOUND", "R-WINDOW", "R-ALPHAGUARD"],
+        "explanation": "The structural half of prefix search: the not-found protocol of the in-bucket search helpers (all five front-coding kinds), "
+                       "agreement between the located ID range and the window handed to the string iterator under that iterator class's own "
+                       "first/end protocol (symbolic count = right-left+1, incl. the empty range), alphabet guard for absent bytes.",
+        "decided": ["searchPrefix-style helpers can report not-found where callers test for it (R-NOTFOUND)",
+                    "extractPrefix yields exactly right-left+1 strings for the range locatePrefix computes; extractTable numElements (R-WINDOW)",
+                    "bytes occurring in no member cannot index occ[] (R-ALPHAGUARD)"],
+        "not_decided": ["correctness of the boundary binary searches and in-bucket scans on actual data (value-level)"],
+        "assumptions": COMMON_ASSUME,
+    },
+    "C05": {
+        "rules": ["R-DEDUP", "R-STUB", "R-ALPHAGUARD"],
+        "explanation": "Only the de-duplication protocol and the configuration guard are decided: the occurrence array is sorted over exactly [a,a+n) "
+                       "and carries the 0 sentinel at a[n] before a duplicate-skipping iterator is created, is allocated with n+1 entries, and the "
+                       "BWTsampling==0 configuration is an effect-free stub.",
+        "decided": ["sort-before-dedup over the exact range, sentinel store, allocation extent matches+1 (R-DEDUP)",
+                    "BWTsampling==0 guard first, stub region returns null (R-STUB)", "absent bytes are rejected before indexing (R-ALPHAGUARD)"],
+        "not_decided": ["backward search, LF-walk and the position-to-ID mapping through the separator bitmap (value-level): the core of the property"],
+        "assumptions": COMMON_ASSUME,
+    },
+    "C13": {
+        "rules": ["R-OUTLEN", "R-WINDOW", "R-DEDUP", "R-STUB", "R-QUERYPURE"],
+        "explanation": "Iterator protocol rules: every next() stores the length on every path to a non-null return and advances a field that "
+                       "hasNext() reads (or consumes its work list) on every path; windows given at every extractTable/extractPrefix site match "
+                       "the class protocol; duplicate-skipping iterators never read past their array (sentinel + extent); iterator steps write "
+                       "only iterator-owned memory.",
+        "decided": ["length reported and cursor advanced on every path (R-OUTLEN)", "window = numElements / right-left+1 at every construction site (R-WINDOW)",
+                    "sentinel and extent for duplicate skipping (R-DEDUP)", "XBW::extractTable is an effect-free stub (R-STUB)",
+                    "iterator steps do not write borrowed dictionary storage (R-QUERYPURE)"],
+        "not_decided": ["that the strings produced are the right ones and NUL-terminated after decoding (value-level)"],
+        "assumptions": COMMON_ASSUME,
+    },
     "C06": {
         "rules": ["R-MIRROR", "R-EXTENT", "R-TAGS", "R-DISPATCH", "R-PADDING"],
         "explanation": "Writer/reader agreement decided statically for every save/load pair in the cone of classes the 13 kinds persist "
